@@ -5,7 +5,7 @@
    row pointer never written, NULL dereference. *)
 From Coq Require Import Floats.
 From mathcomp Require Import all_ssreflect.
-From LS Require Import NumOps F64Ops Containers ContSpec ContSpec2 ContSpec3.
+From LS Require Import NumOps F64Ops Containers ContSpec ContSpec2 ContSpec3 Strings StringsSpec.
 Set Implicit Arguments. Unset Strict Implicit. Unset Printing Implicit Defensive.
 
 Section AnyNumbers.
@@ -103,6 +103,29 @@ Example C14_history_runs :
         (1%N, None, Some [:: (0%N, 1%N, [:: 3%N], [:: 0; 0; 5]); (2%N, 0%N, [:: 4%N; 3%N], [:: 0; 0; 0; 0; 0; 0; 0; 0; 5; 0; 0; 5])])] = true.
 Proof. by vm_compute. Qed.
 
+Section Texts.
+Local Close Scope float_scope.
+Local Open Scope nat_scope.
+(* SplitString on a string vector (model Exec/Strings.v, run against the library under ASan+UBSan): for EVERY text and separator
+   set the vector keeps what it held and gains pieces that are non-empty and free of separator characters; put end to end the
+   pieces are the trimmed text without its separator characters; a text of white space only (or the empty text) adds nothing; a
+   trimmed text without separators is one piece; the trimmed text neither starts nor ends with white space *)
+Theorem C14_split_appends_clean_pieces tokens sep s : take (size tokens) (str_split tokens sep s) = tokens /\
+  all (tok_ok sep) (drop (size tokens) (str_split tokens sep s)).
+Proof. exact: str_split_appends. Qed.
+Theorem C14_split_loses_only_separators sep s : flatten (split_string sep s) = filter (fun c => c \notin sep) (trim s).
+Proof. exact: split_flatten. Qed.
+Theorem C14_split_blank_text sep s : all is_space s -> split_string sep s = [::].
+Proof. exact: split_blank. Qed.
+Theorem C14_split_single_piece sep s : trim s != [::] -> all (fun c => c \notin sep) (trim s) -> split_string sep s = [:: trim s].
+Proof. exact: split_single. Qed.
+Theorem C14_trim_ends s : trim s = [::] \/ (~~ is_space (head 0 (trim s)) /\ ~~ is_space (last 0 (trim s))).
+Proof. exact: trim_ends. Qed.
+Example C14_split_example : str_split [:: [:: 120]] [:: 59] [:: 32; 97; 59; 59; 98; 32; 99; 9] = [:: [:: 120]; [:: 97]; [:: 98; 32; 99]] /\
+  split_string [:: 59] [:: 32; 9; 32] = [::].
+Proof. by vm_compute. Qed.
+End Texts.
+
 Print Assumptions C14_vector_histories.
 Print Assumptions C14_matrix_histories.
 Print Assumptions C14_matrix_histories_all.
@@ -122,3 +145,8 @@ Print Assumptions C14_matrix_get.
 Print Assumptions C14_append_column.
 Print Assumptions C14_append_row.
 Print Assumptions C14_appendcol_short_refuted.
+Print Assumptions C14_split_appends_clean_pieces.
+Print Assumptions C14_split_loses_only_separators.
+Print Assumptions C14_split_blank_text.
+Print Assumptions C14_split_single_piece.
+Print Assumptions C14_trim_ends.
